@@ -20,6 +20,8 @@ def flatten(v, prefix=""):
             shapes.append(s)
             leaves += l
         return ("t", shapes), leaves
+    if isinstance(v, Enum) and v.tname == "Ordering" and isinstance(v.discr, int):
+        return ("k", v), []  # memory orderings are compile-time constants at every access: kept static (C12 reads them)
     if isinstance(v, Enum):
         d = bv(v.discr, 64) if isinstance(v.discr, int) else v.discr
         vs, leaves = {}, [(prefix + "d", d)]
